@@ -300,6 +300,10 @@ class UnionParser(AbstractParser[Tuple[Type[T], ...], Optional[T]]):
         # Attempt to parse to the desired dataclass type, using the "tag"
         # field in the input dictionary object.
         try:
+            # Test for the key first: subscripting a `defaultdict` without
+            # it would call the factory and write the key into the input.
+            if self.tag_key not in o:
+                raise KeyError(self.tag_key)
             tag = o[self.tag_key]
         except (TypeError, KeyError):
             # Invalid type (`o` is not a dictionary object) or no such key.
